@@ -352,6 +352,11 @@ func mutateYAML(r *Rand, doc string) (string, string) {
 	var nodes []*yaml.Node
 	collectYAML(&root, &nodes)
 	n := Pick(r, nodes)
+	if top := root.Content[0]; top.Kind == yaml.MappingNode && len(top.Content) >= 2 && r.Chance(1, 6) {
+		// the values of the top-level keys are few among many nodes, and each
+		// of them is decoded by code of its own
+		n = top.Content[2*r.Intn(len(top.Content)/2)+1]
+	}
 	note := ""
 	switch r.Intn(9) {
 	case 0: // drop a mapping pair / sequence element
